@@ -293,12 +293,70 @@ def run(model: RepoModel, rep, tier: str):
                 for t in tg:
                     if is_self_attr(t) and _is_set_expr(n.value) and f.cls:
                         set_attrs.setdefault(t.attr, set()).add(f.cls.name)
+    # fields declared as sets on the class (`all_parameters: set = field(default_factory=set)`): a set wherever the object travels
+    ann_sets: Dict[str, str] = {}
+    ann_other: Set[str] = set()
+    for mod_ in model.modules.values():
+        for ci_ in mod_.classes.values():
+            for st_ in ci_.node.body:
+                if isinstance(st_, ast.AnnAssign) and isinstance(st_.target, ast.Name):
+                    a_ = norm(st_.annotation)
+                    if a_ == "set" or a_.lower().startswith(("set[", "typing.set[")):
+                        ann_sets[st_.target.id] = a_
+                    else:
+                        ann_other.add(st_.target.id)
+    for k_ in list(ann_sets):
+        if k_ in ann_other:
+            del ann_sets[k_]              # the same field name is something else on another class: not decidable by name
+
+    def field_set(e) -> Optional[str]:
+        """`<obj>.<field>` / `<obj>.<field>.copy()` for a field annotated as a set"""
+        if isinstance(e, ast.Call) and isinstance(e.func, ast.Attribute) and e.func.attr == "copy" and not e.args:
+            e = e.func.value
+        if isinstance(e, ast.Attribute) and e.attr in ann_sets and not is_self_attr(e):
+            return e.attr
+        return None
+
+    _fsk: Dict[str, Tuple[str, str]] = {}
+    _adds: List[tuple] = []
+
+    def field_set_kind(fld: str) -> Tuple[str, str]:
+        if fld not in _fsk:
+            _fsk[fld] = _field_set_kind(fld)
+        return _fsk[fld]
+
+    def _field_set_kind(fld: str) -> Tuple[str, str]:
+        ann = ann_sets[fld]
+        if "[int]" in ann:
+            return "int", ann
+        if "[str]" in ann:
+            return "str", ann
+        if not _adds:
+            for g_ in model.all_funcs():
+                for c_ in walk_no_nested(g_.node):
+                    if isinstance(c_, ast.Call) and isinstance(c_.func, ast.Attribute) and c_.func.attr == "add" and isinstance(c_.func.value, ast.Attribute) \
+                            and c_.func.value.attr in ann_sets and c_.args:
+                        _adds.append((c_.func.value.attr, g_, c_))
+            _adds.append((None, None, None))
+        for fld_, g_, c_ in _adds:
+            if fld_ == fld:
+                if True:
+                    a0 = c_.args[0]
+                    # the class of what is added: a constructor call, or a local bound to one
+                    cands = [a0] + ([d.value for d in walk_no_nested(g_.node) if isinstance(d, ast.Assign) and isinstance(d.targets[0], ast.Name)
+                                     and isinstance(a0, ast.Name) and d.targets[0].id == a0.id])
+                    for x in cands:
+                        if isinstance(x, ast.Call) and (call_name(x) or "")[:1].isupper():
+                            return _hash_kind_of_class(model, g_, call_name(x)), f"{norm(c_)[:50]} ({call_name(x)})"
+        return "unknown", ann
     n_sites = 0
     for f in model.all_funcs():
         if f.module.rel.startswith("lang/") and f.module.rel != "lang/lang_analysis.py":
             continue
         local_sets = {n.targets[0].id for n in walk_no_nested(f.node) if isinstance(n, ast.Assign) and isinstance(n.targets[0], ast.Name)
                       and _is_set_expr(n.value)}
+        local_field_sets = {n.targets[0].id: field_set(n.value) for n in walk_no_nested(f.node) if isinstance(n, ast.Assign) and isinstance(n.targets[0], ast.Name)
+                            and field_set(n.value)}
         for n in walk_no_nested(f.node):
             if not isinstance(n, ast.For):
                 continue
@@ -310,11 +368,18 @@ def run(model: RepoModel, rep, tier: str):
                 what = ("attr", it.attr)
             elif _is_set_expr(it):
                 what = ("expr", norm(it))
+            elif field_set(it):
+                what = ("field", field_set(it))
+            elif isinstance(it, ast.Name) and it.id in local_field_sets:
+                what = ("field", local_field_sets[it.id])
             if what is None:
                 continue
             n_sites += 1
             key = f"{f.ref}::for over set `{norm(it)}`"
-            kind, ev = ("unknown", "") if what[0] == "expr" else _elem_kind(f, what[1], what[0] == "attr", model)
+            if what[0] == "field":
+                kind, ev = field_set_kind(what[1])
+            else:
+                kind, ev = ("unknown", "") if what[0] == "expr" else _elem_kind(f, what[1], what[0] == "attr", model)
             if kind == "unknown" and isinstance(n.target, ast.Name):
                 # how the loop uses its element tells its kind: receiver of string-only methods, argument of re.escape / os.path.*
                 tv = n.target.id
